@@ -732,3 +732,11 @@ func init() {
 		return IfaceV{T: iv.T, V: c}
 	}, "maps.clone")
 }
+
+func init() {
+	// compiler intrinsic: 1 for true, 0 for false
+	reg(func(w *Worker, _ *frame, _ *ssa.Function, a []Value) Value {
+		b := a[0].(*term.Term)
+		return w.TF.Ite(b, w.TF.Const(8, 1), w.TF.Const(8, 0))
+	}, "crypto/internal/constanttime.boolToUint8")
+}
